@@ -3,6 +3,7 @@
 package main
 
 import (
+	"encoding/json"
 	"flag"
 	"fmt"
 	"os"
@@ -20,6 +21,7 @@ func main() {
 	list := flag.Bool("list", false, "list properties with rules")
 	goarch := flag.String("goarch", "", "GOARCH override")
 	goos := flag.String("goos", "", "GOOS override")
+	explain := flag.String("explain", "", "violation file written by an earlier run: print it and re-decide that obligation on the current tree")
 	flag.Parse()
 	if *list {
 		var ids []string
@@ -40,7 +42,69 @@ func main() {
 		fmt.Printf("ERROR unknown property %q\n", *prop)
 		os.Exit(2)
 	}
+	if *explain != "" {
+		os.Exit(explainOne(*prop, *explain, *goarch, *goos, run))
+	}
 	os.Exit(runOne(*prop, *tier, *noEv, *goarch, *goos, run))
+}
+
+// explainOne is the replay of a static finding: it prints the recorded
+// obligation (rule, function, construct, position, reason) and re-runs the
+// property's rules on /repo's current source; exit 1 if the same
+// (rule, function, construct) is still violated, 0 if it is now discharged.
+func explainOne(prop, path, goarch, goos string, run rules.RuleFunc) (code int) {
+	b, err := os.ReadFile(path)
+	if err != nil {
+		fmt.Printf("ERROR read %s: %v\n", path, err)
+		return 2
+	}
+	var rec struct {
+		Property   string          `json:"property"`
+		Tier       string          `json:"tier"`
+		Obligation core.Obligation `json:"obligation"`
+	}
+	if err := json.Unmarshal(b, &rec); err != nil {
+		fmt.Printf("ERROR parse %s: %v\n", path, err)
+		return 2
+	}
+	o := rec.Obligation
+	fmt.Printf("recorded violation of %s (tier %s)\n  rule:      %s\n  function:  %s\n  construct: %s\n  at:        %s\n  reason:    %s\n",
+		rec.Property, rec.Tier, o.Rule, o.Function, o.Construct, o.Pos, o.How)
+	if rec.Property != prop {
+		fmt.Printf("ERROR the file belongs to %s, not %s\n", rec.Property, prop)
+		return 2
+	}
+	defer func() {
+		if e := recover(); e != nil {
+			fmt.Printf("ERROR analyser panic (cannot decide): %v\n%s\n", e, debug.Stack())
+			code = 2
+		}
+	}()
+	rep := core.NewReport(prop, rec.Tier)
+	p, err := core.Load(core.LoadConfig{GOARCH: goarch, GOOS: goos})
+	if err != nil {
+		fmt.Printf("ERROR load: %v\n", err)
+		return 2
+	}
+	run(p, rep)
+	if rec.Tier == "thorough" {
+		rules.Thorough(prop, p, rep)
+	}
+	found := false
+	for _, c := range rep.Obls {
+		if c.Rule == o.Rule && c.Function == o.Function && c.Construct == o.Construct {
+			found = true
+			fmt.Printf("on the current tree: %s at %s: %s\n", c.Status, c.Pos, c.How)
+			if c.Status == core.Violated && !c.Known {
+				fmt.Printf("VIOLATION property=%s replay=%s\n", prop, path)
+				code = 1
+			}
+		}
+	}
+	if !found {
+		fmt.Println("on the current tree: the construct no longer exists (obligation not generated)")
+	}
+	return code
 }
 
 func isFlagSet(name string) bool {
